@@ -28,12 +28,9 @@ from __future__ import absolute_import
 
 from slimta.envelope import Envelope
 from slimta.smtp.server import Server
-from slimta.smtp.reply import Reply
 from slimta.smtp import ConnectionLost, MessageTooBig
-from slimta.queue import QueueError
-from slimta.relay import RelayError
 from slimta.util.ptrlookup import PtrLookup
-from . import EdgeServer
+from . import EdgeServer, get_failure_reply
 
 __all__ = ['SmtpEdge', 'SmtpValidators']
 
@@ -190,13 +187,9 @@ class SmtpSession(object):
         self.envelope.parse(data)
 
         results = self.handoff(self.envelope)
-        if isinstance(results[0][1], QueueError):
-            default_reply = Reply('451', '4.3.0 Error queuing message')
-            queue_reply = getattr(results[0][1], 'reply', default_reply)
-            reply.copy(queue_reply)
-        elif isinstance(results[0][1], RelayError):
-            relay_reply = results[0][1].reply
-            reply.copy(relay_reply)
+        failure_reply = get_failure_reply(results)
+        if failure_reply is not None:
+            reply.copy(failure_reply)
         else:
             reply.message = '2.6.0 Message accepted for delivery'
         self._call_validator('queued', reply, results)
